@@ -183,6 +183,13 @@ def check(run):
     if len(unpack) != 1 or len(unpack[0].targets[0].elts) != 4:
         raise AnalysisError("Boxer.run no longer unpacks exen() into four names")
     bound = {t.id: elts[i] for i, t in enumerate(unpack[0].targets[0].elts) if isinstance(t, ast.Name)}
+    # the transition is computed relative to the active box: the goact that fired may belong to an ancestor, whose own pile descends
+    # through its primary under and is not the active pile when the active box sits on another branch
+    near_arg = unpack[0].value.args[0] if unpack[0].value.args else None
+    ok = dotted(near_arg) == "self.box"
+    run.ob("C25.R1", "%s:transition-relative-to-active-box" % runf.fq, ok, run.site(runf, unpack[0]),
+           "" if ok else "run() calls exen(%s, dest): the near pile must be that of the active box self.box; with the box whose goact fired (an "
+           "ancestor) the boxes exited are those of its primary branch, not the active ones" % (unparse(near_arg) if near_arg is not None else None))
     for verb, (pile, part, orient) in sorted(WANT.items()):
         calls = [n for n in walk_local(runf.node) if isinstance(n, ast.Call) and is_self_call(n, verb) and n.args and isinstance(n.args[0], ast.Name)]
         ok = bool(calls)
@@ -243,7 +250,7 @@ def check(run):
                    "near pile (forced exit and re-entry of far and all below it) or where the piles differ, each unconditionally (%s)" %
                    (unparse(st.test), "; ".join(["missing or conditioned: %s %s" % (k, sorted(v)) for k, v in sorted(missing, key=str)] +
                                                 ["extra: %s" % (e,) for e in sorted(extra, key=str)])))
-    run.floor("C25.R1", 9)
+    run.floor("C25.R1", 10)
     # R4 entry preconditions are a conjunction: one unmet precondition refuses the transition
     for owner, q in ((boxer, "predo"), (ix.cls(BX, "Box"), "predo")):
         f = ix.method(owner, q)
@@ -299,10 +306,11 @@ def check(run):
 
 
 MUTANTS = [
+    Mutant("reintroduce-exen-from-goact-box", BX, "Boxer.run", "self.exen(self.box, dest)", "self.exen(box, dest)", {"C25.R1"}, canary=True),
     Mutant("exen-forced-reentry-conditioned", BX, "Boxer.exen", "if (far is nears[i]) or (fars[i] is not nears[i]):", "if (fars == nears and far is nears[i]) or (fars[i] is not nears[i]):", {"C25.R1"}),
     Mutant("predo-result-of-last-box", BX, "Boxer.predo", "            met = box.predo()\n            if not met:\n                break\n", "            if box.preacts:\n                met = box.predo()\n", {"C25.R4"}, canary=True),
     Mutant("box-predo-ignores-failure", BX, "Box.predo", "            if not preact():\n                return False\n", "            preact()\n", {"C25.R4"}),
-    Mutant("reintroduce-swapped-unpack", BX, "Boxer.run", "exdos, endos, rexdos, rendos = self.exen(box, dest)", "exdos, endos, rendos, rexdos = self.exen(box, dest)", {"C25.R1"}, canary=True),
+    Mutant("reintroduce-swapped-unpack", BX, "Boxer.run", "exdos, endos, rexdos, rendos = self.exen(self.box, dest)", "exdos, endos, rendos, rexdos = self.exen(self.box, dest)", {"C25.R1"}, canary=True),
     Mutant("reintroduce-end-topdown", BX, "Boxer.end", "self.exdo(list(reversed(self.box.pile)))", "self.exdo(self.box.pile)", {"C25.R1"}, canary=True),
     Mutant("reintroduce-stale-endos", BX, "Boxer.run", "                            rendos = []  # no transit so nothing to re-enter\n                            endos = []  # no transit so nothing to enter\n", "", {"C25.R2"}, canary=True),
     Mutant("rexdo-before-exdo", BX, "Boxer.run", "                        self.exdo(exdos)  # exdo bottom up\n                        self.rexdo(rexdos)  # rexdo bottom up  (boxes retained)\n", "                        self.rexdo(rexdos)  # rexdo bottom up  (boxes retained)\n                        self.exdo(exdos)  # exdo bottom up\n", {"C25.R3"}, canary=True),
